@@ -64,7 +64,17 @@ func (g *c09Gen) lets(level int) string {
 			continue
 		}
 		v := g.token(n)
-		fmt.Fprintf(&sb, "<%% let %s = \"%s\" %%>", n, v)
+		// an if block is not a scope of its own: a let inside one binds in the scope around it
+		switch g.r.Intn(6) {
+		case 0:
+			fmt.Fprintf(&sb, "<%% if (true) { %%><%% let %s = \"%s\" %%><%% } %%>", n, v)
+			g.labels["let-inside-if-block"] = true
+		case 1:
+			fmt.Fprintf(&sb, "<%% if (false) { let %s = \"never\" } else { let %s = \"%s\" } %%>", n, n, v)
+			g.labels["let-inside-else-block"] = true
+		default:
+			fmt.Fprintf(&sb, "<%% let %s = \"%s\" %%>", n, v)
+		}
 		if _, bound := g.lookup(n); bound {
 			g.labels["shadowing-let"] = true
 		} else {
@@ -93,10 +103,29 @@ func (g *c09Gen) seq(shape []string, level int) string {
 
 func (g *c09Gen) binder() (string, string) {
 	n := pick(g.r, []string{"a", "b", "c", "x"})
-	if _, bound := g.lookup(n); bound {
+	_, bound := g.lookup(n)
+	if bound {
 		g.labels["binder-shadows-outer"] = true
 	}
+	if g.r.Chance(1, 8) {
+		// bound to nil: the name is bound all the same, an outer value does not show through
+		if bound {
+			g.labels["nil-binding-shadows-outer"] = true
+		}
+		return n, c09Nil
+	}
 	return n, g.token(n)
+}
+
+// c09Nil stands for a nil binding in the model; probes print it like an unbound name.
+const c09Nil = "∅"
+
+// c09Lit is the source text of a bound value.
+func c09Lit(v string) string {
+	if v == c09Nil {
+		return "nil"
+	}
+	return "\"" + v + "\""
 }
 
 func (g *c09Gen) construct(shape []string, level int) string {
@@ -113,7 +142,7 @@ func (g *c09Gen) construct(shape []string, level int) string {
 		g.exp.WriteString("{")
 		body := g.seq(shape[1:], level+1)
 		g.exp.WriteString("}")
-		return fmt.Sprintf("<%%= for (%s) in [\"%s\"] { %%>{%s}<%% } %%>", n, v, body)
+		return fmt.Sprintf("<%%= for (%s) in [%s] { %%>{%s}<%% } %%>", n, c09Lit(v), body)
 	case "fn":
 		if g.r.Chance(1, 3) {
 			// a function without parameters still has its own scope
@@ -127,7 +156,7 @@ func (g *c09Gen) construct(shape []string, level int) string {
 		g.exp.WriteString("(")
 		body := g.seq(shape[1:], level+1)
 		g.exp.WriteString(")")
-		return fmt.Sprintf("<%% let fn%d = fn(%s) { %%>(%s)<%% } %%><%%= fn%d(\"%s\") %%>", id, n, body, id, v)
+		return fmt.Sprintf("<%% let fn%d = fn(%s) { %%>(%s)<%% } %%><%%= fn%d(%s) %%>", id, n, body, id, c09Lit(v))
 	case "contentOf-twice", "partial-without-data-twice":
 		// the same block / partial is rendered twice with different (or no)
 		// data: the second rendering starts from the outer scope again and sees
@@ -153,7 +182,7 @@ func (g *c09Gen) construct(shape []string, level int) string {
 		if kind == "contentOf-twice" {
 			body1, exp1 = render(map[string]string{n: v}, "«", "»")
 			body2, exp2 = render(map[string]string{n2: v2}, "«", "»")
-			src = fmt.Sprintf("<%% contentFor(\"c%d\") { %%>«%s»<%% } %%><%%= contentOf(\"c%d\", {%s: \"%s\"}) %%><%%= contentOf(\"c%d\", {%s: \"%s\"}) %%>", id, body1, id, n, v, id, n2, v2)
+			src = fmt.Sprintf("<%% contentFor(\"c%d\") { %%>«%s»<%% } %%><%%= contentOf(\"c%d\", {%s: %s}) %%><%%= contentOf(\"c%d\", {%s: %s}) %%>", id, body1, id, n, c09Lit(v), id, n2, c09Lit(v2))
 		} else {
 			body1, exp1 = render(map[string]string{}, "<", ">")
 			body2, exp2 = render(map[string]string{}, "<", ">")
@@ -193,29 +222,29 @@ func (g *c09Gen) construct(shape []string, level int) string {
 		post := g.probe("after-replay") + g.lets(level+1) + g.probe("end-of-replaying-construct")
 		g.exp.WriteString(close)
 		g.scopes[len(g.scopes)-1] = dataScope
-		call := fmt.Sprintf("<%%= contentOf(\"c%d\", {%s: \"%s\"}) %%>", id, n, v)
+		call := fmt.Sprintf("<%%= contentOf(\"c%d\", {%s: %s}) %%>", id, n, c09Lit(v))
 		decl := fmt.Sprintf("<%% contentFor(\"c%d\") { %%>«%s»<%% } %%>", id, body)
 		if kind == "contentOf-replayed-in-for" {
-			return decl + fmt.Sprintf("<%%= for (%s) in [\"%s\"] { %%>{%s%s%s}<%% } %%>", ln, lv, pre, call, post)
+			return decl + fmt.Sprintf("<%%= for (%s) in [%s] { %%>{%s%s%s}<%% } %%>", ln, c09Lit(lv), pre, call, post)
 		}
-		return decl + fmt.Sprintf("<%% let fn%d = fn(%s) { %%>(%s%s%s)<%% } %%><%%= fn%d(\"%s\") %%>", id, ln, pre, call, post, id, lv)
+		return decl + fmt.Sprintf("<%% let fn%d = fn(%s) { %%>(%s%s%s)<%% } %%><%%= fn%d(%s) %%>", id, ln, pre, call, post, id, c09Lit(lv))
 	case "partial":
 		name := fmt.Sprintf("p%d", id)
 		g.exp.WriteString("<")
 		body := g.seq(shape[1:], level+1)
 		g.exp.WriteString(">")
 		g.partials[name] = "<" + body + ">"
-		return fmt.Sprintf("<%%= partial(\"%s\", {%s: \"%s\"}) %%>", name, n, v)
+		return fmt.Sprintf("<%%= partial(\"%s\", {%s: %s}) %%>", name, n, c09Lit(v))
 	case "contentOf":
 		g.exp.WriteString("«")
 		body := g.seq(shape[1:], level+1)
 		g.exp.WriteString("»")
-		return fmt.Sprintf("<%% contentFor(\"c%d\") { %%>«%s»<%% } %%><%%= contentOf(\"c%d\", {%s: \"%s\"}) %%>", id, body, id, n, v)
+		return fmt.Sprintf("<%% contentFor(\"c%d\") { %%>«%s»<%% } %%><%%= contentOf(\"c%d\", {%s: %s}) %%>", id, body, id, n, c09Lit(v))
 	default: // blockWith
 		g.exp.WriteString("‹")
 		body := g.seq(shape[1:], level+1)
 		g.exp.WriteString("›")
-		return fmt.Sprintf("<%%= withCtx({%s: \"%s\"}) { %%>‹%s›<%% } %%>", n, v, body)
+		return fmt.Sprintf("<%%= withCtx({%s: %s}) { %%>‹%s›<%% } %%>", n, c09Lit(v), body)
 	}
 }
 
